@@ -140,25 +140,31 @@ def r03c(ctx, P, commit):
 
 def r03e(ctx, P):
     rid = "R03.e"
-    ctx.rule(rid, "ORDER: in add_document / delete_documents the in-memory queue is extended only on the success arm of the log "
-                  "append (an Err return queues nothing, so a retry cannot duplicate)")
-    n = 0
-    for name, app in (("add_document", N.WAL + "::append_add_doc"), ("delete_documents", N.WAL + "::append_delete_doc_id")):
-        f = P.fn(N.W + "::" + name)
-        if not ctx.anchor(rid, f, "IndexWriter::" + name):
+    ctx.rule(rid, "ORDER: every site in the crate that extends the in-memory queue (`pending_ops`) lies on the success arm of a log "
+                  "append in the same function (an Err return queues nothing, so a retry cannot duplicate)")
+    apps_by_fn = {}
+    sites = []
+    APPENDS = (N.WAL + "::append_add_doc", N.WAL + "::append_delete_doc_id")
+    for q in sorted(P.fns):
+        f = P.fns[q]
+        if f.crate != "searchlite_core" or is_test_or_bench(f):
             continue
+        sl = None
+        for b, t in f.calls():
+            cal = callee_of(t)
+            if not t["args"] or not (cal.endswith(("Vec::<T, A>::push", "::extend", "::extend_from_slice", "::insert", "::append"))):
+                continue
+            sl = sl or Slice(f)
+            if "pending_ops" in sl.fields(t["args"][0]):
+                sites.append((f, Site(f, b)))
+    ctx.floor(rid, len(sites), 2, "sites extending the pending-operations queue (at least one add path and one delete path)")
+    for f, p in sites:
         ctx.saw(f)
-        sl = Slice(f)
-        pushes = [Site(f, b) for b, t in f.calls()
-                  if callee_of(t).endswith("Vec::<T, A>::push") and "pending_ops" in sl.fields(t["args"][0])]
-        apps = [Site(f, b) for b, t in f.calls() if callee_of(t) == app]
-        ctx.floor(rid + "." + name, min(len(pushes), len(apps)), 1, "queue push and log append in " + name)
-        for p in pushes:
-            n += 1
-            good = any(in_arm(f, p, outcome_arms(f, a)["ok"]) for a in apps)
-            ctx.ob(rid, "%s:%s:push-after-append" % (rid, f.short), good,
-                   "queue push at %s only after %s succeeded" % (p.loc(), app.rsplit("::", 1)[1]) if good else
-                   "queue push at %s is not confined to the success arm of the log append" % p.loc(), p.loc())
+        apps = [Site(f, b) for b, t in f.calls() if callee_of(t) in APPENDS]
+        good = any(in_arm(f, p, outcome_arms(f, a)["ok"]) for a in apps)
+        ctx.ob(rid, "%s:%s:push-after-append" % (rid, f.short), good,
+               "queue push at %s only after the log append succeeded" % p.loc() if good else
+               "queue push at %s is not confined to the success arm of a log append in %s" % (p.loc(), f.short), p.loc())
 
 
 def disposition(fn, b, t, depth=0):
